@@ -18,8 +18,11 @@ use vmm_sys_util::{
 };
 
 // Use a dummy ioctl implementation for tests instead.
+#[cfg(not(vm_memory_verif))]
 #[cfg(not(test))]
 use vmm_sys_util::ioctl::ioctl_with_ref;
+#[cfg(all(not(test), vm_memory_verif))]
+use crate::verif_hooks::xen_ioctl_with_ref as ioctl_with_ref;
 
 #[cfg(test)]
 use tests::ioctl_with_ref;
